@@ -270,7 +270,11 @@ def check(item, tier):
     if not in_scope(spec):
         r.count('out_of_scope')
         return r
-    V, Q = refmdp.optimal(spec)
+    try:
+        V, Q = refmdp.optimal(spec)
+    except ValueError:
+        r.count('out_of_scope')        # the exact optimum is not finite (a rewarding closed loop among states nothing leads to)
+        return r
     with warnings.catch_warnings():
         warnings.simplefilter('ignore')
         np.seterr(all='ignore')
